@@ -24,7 +24,7 @@ WHERE = {}
 @st.composite
 def strategy(draw, tier="quick"):
     nf = draw(st.integers(1, 3))
-    cells = draw(gen.cells(nf, allow_none=False, lmin=6.0, lmax=20.0))
+    cells = draw(gen.cells(nf, allow_none=False, lmin=6.0, lmax=20.0, kinds=gen.KINDS_GEOMETRY))
     mols = []
     for _ in range(draw(st.integers(1, 6))):
         kind = draw(st.sampled_from(["chain", "chain", "tree", "ring", "ion"]))
